@@ -687,7 +687,36 @@ def _prov(v, seen=None):
     return out
 
 
+def rule_every_chunk_serialised(ctx):
+    """C17.j: the engine hands a large result over in several arrow chunks; the serialiser sends all of them: either it writes
+    every batch, or it first combines the table into one (`combine_chunks()`) — taking `to_batches()[0]` of the raw table, or
+    refusing anything but one batch, fails for results beyond one chunk that the in-process connection returns without trouble."""
+    prog = ctx.prog
+    m = prog.modules.get("arrow")
+    if m is None or "to_ipc" not in m.functions:
+        return
+    fn = m.functions["to_ipc"]
+    calls_ = [c for c in ast.walk(fn) if isinstance(c, ast.Call) and isinstance(c.func, ast.Attribute)]
+    tb = [c for c in calls_ if c.func.attr == "to_batches"]
+    combined = any("combine_chunks" in norm(c.func.value) for c in tb) or any(
+        isinstance(a, ast.Assign) and "combine_chunks" in norm(a.value) for a in ast.walk(fn))
+    loops_all = any(isinstance(l_, (ast.For, ast.comprehension)) and any(isinstance(c, ast.Call) and isinstance(c.func, ast.Attribute) and c.func.attr == "to_batches"
+                                                                          for c in ast.walk(l_.iter)) for l_ in ast.walk(fn)) \
+        or any(c.func.attr == "write_table" for c in calls_)
+    single = any(isinstance(s_, ast.Subscript) and isinstance(s_.slice, ast.Constant) and s_.slice.value == 0 for s_ in ast.walk(fn)) or \
+        any(isinstance(c, ast.Compare) and "len(" in norm(c.left) and any(isinstance(k, ast.Constant) and k.value == 1 for k in c.comparators) for c in ast.walk(fn))
+    ok = loops_all or combined or not single
+    ctx.ob("C17.j", "to_ipc serialises every chunk of the result (writes all batches, or combines them first)", ok, m.loc(fn))
+    if not ok:
+        ctx.violation("C17.j", "arrow", "to_ipc", "only a single-batch table can be serialised", m.loc(fn),
+                      "to_ipc takes the table's batches as the engine chunked them and handles exactly one: a result of more rows than one engine "
+                      "chunk (1,000,000 by default; fewer if the result is fetched with a smaller batch size) answers HTTP 500 through the server "
+                      "while the in-process connection returns every row")
+    ctx.floor("C17.j serialiser sites", len(tb) + (1 if loops_all else 0), 1)
+
+
 RULES = [
+    ("C17.j", rule_every_chunk_serialised, ("quick", "thorough")),
     ("C17.i", rule_rowset, ("quick", "thorough")),
     ("C17.a", rule_auth, ("quick", "thorough")),
     ("C17.b", rule_login, ("quick", "thorough")),
